@@ -6,12 +6,14 @@ import os
 
 from harness.core import pool, tb
 
-PROOF_MODULE = "OdeVerif.Proofs.C14"
-GENERATED = ['DrawDecision', 'Constants']
+PROOF_MODULE = ["OdeVerif.Proofs.C14", "OdeVerif.Proofs.RefineStiffness", "OdeVerif.Proofs.RefinePartition"]
+GENERATED = ["DrawDecision", "Constants", "PyStiffness", "PyPartition"]
 THEOREMS = ["OdeVerif.C14.drawDecision_table", "OdeVerif.C14.drawDecision_clauses", "OdeVerif.C14.drawDecision_defaults",
             "OdeVerif.C14.drawDecision_args", "OdeVerif.C14.solverName_suffix", "OdeVerif.C14.solverName_none",
             "OdeVerif.C14.benchmarks_same_stimulus", "OdeVerif.C14.benchmarks_reproducible",
-            "OdeVerif.C14.benchmarks_unfair_without_python_seed"]
+            "OdeVerif.C14.benchmarks_unfair_without_python_seed",
+            "OdeVerif.Refine.checkStiffness_spec", "OdeVerif.Refine.recommendation_documented", "OdeVerif.Refine.no_recommendation_without_benchmark",
+            "OdeVerif.Refine.solverPartition_names"]
 LEVEL = "proof"
 EPS = 2.220446049250313e-16
 
